@@ -148,9 +148,110 @@ theorem req_quiescent_balanced (evs : List REv) (hq : (rrun {} evs).quiescent) :
 then an MGET with one failing child -/
 example :
     let s := rrun {} (evalScript false 0
-      [some ⟨.single cGet, ["mao".toList]⟩, some ⟨.mget, ["o".toList, "e".toList]⟩, some ⟨.invalid, []⟩])
+      [some ⟨.single cGet, [[.moved, .ask, .reply]]⟩, some ⟨.mget, [[.reply], [.fail]]⟩, some ⟨.invalid, []⟩])
     s.quiescent ∧ s.ds = ⟨3, 2, 1⟩ ∧ s.us = ⟨6, 5, 1⟩ ∧ s.moved = 1 := by
   refine ⟨⟨by decide, by decide⟩, by decide, by decide, by decide⟩
+
+/-! ### scripted histories end quiescent -/
+
+theorem rrun_cons (s : RState) (e : REv) (es : List REv) : rrun s (e :: es) = rrun (rstep s e) es := rfl
+theorem rrun_append (s : RState) (a b : List REv) : rrun s (a ++ b) = rrun (rrun s a) b := by
+  simp [rrun, List.foldl_append]
+theorem rrun_nil (s : RState) : rrun s [] = s := rfl
+
+/-- a child that has been sent `h` times and is the only upstream request in flight is settled
+by its plan, whatever the plan -/
+theorem child_settles : ∀ (plan : List Step) (sid fr h : Nat) (s : RState), sid < fr →
+    s.sims = [(sid, h)] →
+    (rrun s (evalChild sid plan fr).1).sims = [] ∧ (rrun s (evalChild sid plan fr).1).raws = s.raws := by
+  intro plan
+  induction plan with
+  | nil =>
+    intro sid fr h s hlt hs
+    simp [evalChild, rrun_cons, rrun_nil, rstep, hs, takeKey]
+  | cons c rest ih =>
+    intro sid fr h s hlt hs
+    have hne : ¬ sid = fr := by omega
+    cases c with
+    | reply => simp [evalChild, rrun_cons, rrun_nil, rstep, hs, takeKey]
+    | fail => simp [evalChild, rrun_cons, rrun_nil, rstep, hs, takeKey]
+    | movedDead => simp [evalChild, rrun_cons, rrun_nil, rstep, hs, bump, takeKey]
+    | moved =>
+      have := ih sid fr (h + 1) (rstep (rstep s .moved) (.simSend sid)) hlt (by simp [rstep, hs, bump])
+      simp only [evalChild, rrun_cons]
+      exact ⟨this.1, by rw [this.2]; simp [rstep]⟩
+    | ask =>
+      have := ih sid (fr + 1) (h + 1)
+        (rstep (rstep (rstep s (.simSend fr)) (.simSend sid)) (.simDone fr false)) (by omega)
+        (by simp [rstep, hs, bump, takeKey, hne])
+      simp only [evalChild, rrun_cons]
+      exact ⟨this.1, by rw [this.2]; simp [rstep, hs, bump, takeKey, hne]⟩
+    | askRefused =>
+      have := ih sid (fr + 1) (h + 1)
+        (rstep (rstep (rstep s (.simSend fr)) (.simSend sid)) (.simDone fr true)) (by omega)
+        (by simp [rstep, hs, bump, takeKey, hne])
+      simp only [evalChild, rrun_cons]
+      exact ⟨this.1, by rw [this.2]; simp [rstep, hs, bump, takeKey, hne]⟩
+
+theorem children_settle (quit : Bool) : ∀ (plans : List (List Step)) (fr : Nat) (s : RState), s.sims = [] →
+    (rrun s (evalChildren quit fr plans).1).sims = [] ∧ (rrun s (evalChildren quit fr plans).1).raws = s.raws := by
+  intro plans
+  induction plans with
+  | nil => intro fr s hs; exact ⟨hs, rfl⟩
+  | cons p ps ih =>
+    intro fr s hs
+    simp only [evalChildren, rrun_cons, rrun_append]
+    have h1 : (rstep s (.simSend fr)).sims = [(fr, 1)] := by simp [rstep, hs, bump]
+    have hc : (rrun (rstep s (.simSend fr)) (evalChildQ quit fr (fr + 1) p).1).sims = [] ∧
+        (rrun (rstep s (.simSend fr)) (evalChildQ quit fr (fr + 1) p).1).raws = s.raws := by
+      unfold evalChildQ
+      cases quit with
+      | true => simp [rrun_cons, rrun_nil, rstep, hs, bump, takeKey]
+      | false =>
+        have := child_settles p fr (fr + 1) 1 (rstep s (.simSend fr)) (by omega) h1
+        simp only [Bool.false_eq_true, if_false]
+        exact ⟨this.1, by rw [this.2]; simp [rstep]⟩
+    have := ih (evalChildQ quit fr (fr + 1) p).2.1 _ hc.1
+    exact ⟨this.1, by rw [this.2, hc.2]⟩
+
+theorem rawDone_settles (t : RState) (id : Nat) (c : Option Nat) (e : Bool) (h : t.raws = [(id, c)]) :
+    (rstep t (.rawDone id e)).raws = [] ∧ (rstep t (.rawDone id e)).sims = t.sims := by
+  simp [rstep, h, takeKey]
+
+theorem req_settles (quit : Bool) (fresh : Nat) (r : Req) (s : RState) (hr : s.raws = []) (hs : s.sims = []) :
+    (rrun s (evalReq quit fresh r).1).raws = [] ∧ (rrun s (evalReq quit fresh r).1).sims = [] := by
+  have key : ∀ (c : Option Nat) (plans : List (List Step)) (e : Bool),
+      (rrun s (.rawNew fresh c :: (evalChildren quit (fresh + 1) plans).1 ++ [.rawDone fresh e])).raws = [] ∧
+      (rrun s (.rawNew fresh c :: (evalChildren quit (fresh + 1) plans).1 ++ [.rawDone fresh e])).sims = [] := by
+    intro c plans e
+    have h0 : (rstep s (.rawNew fresh c)).sims = [] := by simp [rstep, hs]
+    have hch := children_settle quit plans (fresh + 1) (rstep s (.rawNew fresh c)) h0
+    have hraws : (rrun (rstep s (.rawNew fresh c)) (evalChildren quit (fresh + 1) plans).1).raws = [(fresh, c)] := by
+      rw [hch.2]; simp [rstep, hr]
+    rw [List.cons_append, rrun_cons, rrun_append, rrun_cons, rrun_nil]
+    have hd := rawDone_settles _ fresh c e hraws
+    exact ⟨hd.1, by rw [hd.2]; exact hch.1⟩
+  unfold evalReq
+  cases r.kind <;> first
+    | exact key _ _ _
+    | simp [rrun_cons, rrun_nil, rstep, hr, hs, takeKey]
+
+/-- **Every scripted history ends quiescent**: whatever the requests, their children's plans and
+the point at which the upstream quits, once the script has run nothing is in flight — so by
+`req_quiescent_balanced` the model's counters balance for every script the differential runs. -/
+theorem script_quiescent : ∀ (script : List (Option Req)) (quit : Bool) (fresh : Nat) (s : RState),
+    s.raws = [] → s.sims = [] → (rrun s (evalScript quit fresh script)).quiescent := by
+  intro script
+  induction script with
+  | nil => intro quit fresh s hr hs; exact ⟨hr, hs⟩
+  | cons x rest ih =>
+    intro quit fresh s hr hs
+    cases x with
+    | none => simp only [evalScript]; exact ih true fresh s hr hs
+    | some r =>
+      simp only [evalScript, rrun_append]
+      have := req_settles quit fresh r s hr hs
+      exact ih quit _ _ this.1 this.2
 
 /-! ## tie to the code: where every counter moves -/
 
@@ -241,4 +342,5 @@ end SamVerif.Props.C20
 #print axioms SamVerif.Props.C20.stop_without_settling_breaks_conservation
 #print axioms SamVerif.Props.C20.req_conserved
 #print axioms SamVerif.Props.C20.req_quiescent_balanced
+#print axioms SamVerif.Props.C20.script_quiescent
 #print axioms SamVerif.Props.C20.code_moves_match_model
